@@ -68,6 +68,7 @@ func verifCanary(label string, cond bool) {}
 //@   ensures [C06:send-fits-peer] err == nil ==> c.ack.SendBufSize <= peerRecv
 //@   ensures [C06:receive-covers-peer] err == nil ==> c.ack.ReceiveBufSize >= peerSend || c.ack.ReceiveBufSize >= ownRecv
 //@   ensures [C06:config-untouched] c.ack != old(c.ack) ==> fresh(c.ack)
+//@   canary ensures [C06:canary-keeps-own] err == nil ==> c.ack.ReceiveBufSize == ownRecv
 
 // The server side of the handshake: the Hello of the client as it is on the wire (ghost stream): bytes
 // 12..16 its receive buffer size, 16..20 its send buffer size. (A reverse hello replaces the TCP
